@@ -318,6 +318,34 @@ func C19(c *core.Ctx) {
 				Seed: int(c.Seed)*1000 + id, Procs: []int{16, 2, 1}[s%3]})
 		}
 	}
+	// many files that first mention the same fresh commodities at the same time, with an assertion on the totals:
+	// the journal that is processed must be the union of the files (one commodity per name)
+	for k := 0; k < c.Pick(2, 6); k++ {
+		nparts, ncom := 40+10*k, 150
+		lay := &kj.Layout{Root: "main.knut", Files: map[string]string{}, Order: []string{"main.knut"}}
+		var main strings.Builder
+		main.WriteString("2020-01-01 open Assets:Depot\n2020-01-01 open Equity:Equity\n\n")
+		for f := 0; f < nparts; f++ {
+			name := fmt.Sprintf("parts/p%03d.knut", f)
+			fmt.Fprintf(&main, "include \"%s\"\n", name)
+			var pb strings.Builder
+			for t := 0; t < ncom; t++ {
+				fmt.Fprintf(&pb, "2020-02-%02d \"buy %d %d\"\nEquity:Equity Assets:Depot %d W%03dQ\n\n", 1+f%28, f, t, 1+t, t)
+			}
+			lay.Files[name] = pb.String()
+			lay.Order = append(lay.Order, name)
+		}
+		main.WriteString("\n2020-03-20 balance\n")
+		for t := 0; t < ncom; t++ {
+			fmt.Fprintf(&main, "Assets:Depot %d W%03dQ\n", nparts*(1+t), t)
+		}
+		lay.Files["main.knut"] = main.String()
+		for s := 0; s < c.Pick(24, 60); s++ {
+			id++
+			scs = append(scs, c19Scenario{ID: id, Layout: lay, Cmd: [][]string{{"check"}, {"balance", "--color=false"}}[s%2], Variant: "none", TrxExpected: nparts * ncom, Files: nparts + 1,
+				Seed: int(c.Seed)*1000 + id, Procs: []int{16, 16, 8, 16}[s%4]})
+		}
+	}
 	cases := make([]map[string]any, len(scs))
 	core.Parallel(len(scs), func(i int) { cases[i] = runC19(c, bin, root, scs[i]) })
 	c.Add("process_calls_validated_step_by_step", applySteps(c, cases))
